@@ -29,7 +29,9 @@ RULE = ("configurations = endpoint (token, introspection, token_revocation, push
         "intervening requests, no jti, HS signed with another client's secret / with the public key bytes / with a "
         "second oct key, RS/ES signed by another client's or an unregistered key, iss != body client_id, alg none, "
         "not a JWT, malformed Basic, header and body naming different clients, request objects, bearer tokens of "
-        "another client, smuggled 'authenticated' parameter), then random pairs of faults; a case is non-trivial "
+        "another client, smuggled 'authenticated' parameter), then random pairs of faults; plus a deterministic block of "
+        "long-lived assertions (exp +1 h / +1 day) replayed after clock advances of 0/599/600/601/3599 s/12 h with 0 or 3 "
+        "fresh assertions in between, at the same and at another endpoint; a case is non-trivial "
         "when at least one method is usable for the request")
 ASSUMPTIONS = [
     "cryptojwt verifies JWS signatures ideally: a signature verifies only under the key that made it (symbolic model)",
@@ -593,7 +595,7 @@ def oracle(ctx, world, cfg, rq, now, hist, rec, auth_ok, seen, outcome, fp_befor
         alias = rq["hdr"][1] if meth == "bearer_header" and rq.get("hdr") and rq["hdr"][0] == "bearer" else rq.get("access_token")
         ok = alias is not None and world.token_owner.get(alias) == cid
         why = "bearer token of another client"
-    if not ok:
+    if not ok and why != "jti":       # a replayed (iss, jti) is reported below under its own key jti-replay
         ctx.violation("accepted-without-credential:" + str(why).replace(" ", "-"),
                       "%s: authenticated as %r through %s without a valid credential of that client (%s)" % (epn, cid, meth, why), rec)
     # remember accepted (iss, jti)
@@ -945,6 +947,7 @@ def run(ctx):
         side_cases(ctx, worlds["plain"])
         cases = []
         known_witness(ctx, worlds["plain"], clock, cases)
+        long_lived_replays(ctx, worlds["plain"], clock, cases)
         cfgs = configurations(ctx, rng, worlds)
         for i, (variant, cfg, mode) in enumerate(cfgs):
             run_history(ctx, worlds[variant], cfg, mode, rng, clock, "h%d" % i, cases)
@@ -981,6 +984,88 @@ def known_witness(ctx, world, clock, cases):
         recs.append({"i": len(recs), "name": name, "request": rq, "now": NOW0, "auth": rec["auth"], "outcome": rec["outcome"],
                      "handed_on": {k: v for k, v in rec["seen"].items() if k != "auth"}})
     cases.append((history_term(ctx, world, cfg, [], steps), {"cfg": cfg, "variant": world.variant, "tag": "witness", "steps": recs}))
+
+
+LONG_METHODS = ["client_secret_post", "client_secret_jwt", "private_key_jwt", "request_param"]
+
+
+def long_lived_replays(ctx, world, clock, cases):
+    """Deterministic (no rng): a long-lived assertion (exp = now + 1 h / 1 day, with jti) is presented once, the
+    provider's clock advances by 0 / 599 / 600 / 601 / 3599 s / 12 h, k in {0, 3} requests with fresh assertions
+    intervene, then the SAME assertion is presented again at the same or at another endpoint sharing the replay
+    cache.  While it is unexpired the second presentation must be refused (oracle key jti-replay); the model
+    says the cache only grows."""
+    ep_a, ep_b = "token", "pushed_authorization"
+    n = 0
+    for meth, alg, cid, field in (("client_secret_jwt", "HS256", "client_1", "assertion"),
+                                  ("private_key_jwt", "RS256", "client_2", "assertion"),
+                                  ("request_param", "ES256", "client_2", "request")):
+        for life in (3600, 86400):
+            for advance in (0, 599, 600, 601, 3599, 43200):
+                for k in (0, 3):
+                    for other in (False, True):
+                        n += 1
+                        tag = "L%d" % n
+                        cfg_a = {"ep": ep_a, "methods": list(LONG_METHODS), "issuer_target": False, "clients": {}}
+                        cfg_b = {"ep": ep_b, "methods": list(LONG_METHODS), "issuer_target": False, "clients": {}}
+                        world.configure(cfg_a)                      # resets client database and replay cache
+                        eb = world.eps[ep_b]
+                        eb.set_client_authn_methods(client_authn_method=list(LONG_METHODS))
+                        eb.allowed_targets = [eb.name]
+                        clock.now = NOW0
+                        hist = {"accepted_jti": set()}
+                        aud = [ep_url(world, ep_a), ep_url(world, ep_b)]
+
+                        def mk(jti, now):
+                            if alg == "HS256":
+                                key = ("sym", world.secret[cid])
+                            else:
+                                key = ("rsa" if alg == "RS256" else "ec", 1)
+                            return {field: {"alg": alg, "key": key, "iss": cid, "aud": aud, "exp": now + life, "jti": jti}}
+
+                        long_rq = mk("long-%s" % tag, NOW0)
+                        plan = [("long:first:%s" % meth, cfg_a, long_rq, 0)]
+                        for i in range(k):
+                            plan.append(("long:fresh:%s" % meth, cfg_a, None, advance if i == 0 else 0))
+                        plan.append(("long:replay-after-%ds-%d-%s:%s" % (advance, k, "other-endpoint" if other else "same-endpoint", meth),
+                                     cfg_b if other else cfg_a, long_rq, advance if k == 0 else 0))
+                        seg = {"cfg": None, "jdb0": [], "steps": [], "recs": []}
+
+                        def flush():
+                            if seg["steps"]:
+                                cases.append((history_term(ctx, world, seg["cfg"], seg["jdb0"], seg["steps"]),
+                                              {"cfg": seg["cfg"], "variant": world.variant, "tag": tag, "steps": seg["recs"]}))
+                            seg["steps"], seg["recs"] = [], []
+
+                        for i, (name, cfg, rq, tick) in enumerate(plan):
+                            if tick:
+                                clock.tick(tick)
+                            now = clock.now
+                            if rq is None:
+                                rq = mk("fresh-%s-%d" % (tag, i), now)
+                            if seg["cfg"] is not cfg:
+                                flush()
+                                seg["cfg"], seg["jdb0"] = cfg, list(world.c.jti_db.keys())
+                            term, rec, unmod = run_request(ctx, world, cfg, rq, now, hist)
+                            rec["name"] = name
+                            ctx.case_seen({"name": name, "ep": cfg["ep"], "request": rq, "now": now - NOW0, "auth": rec["auth"]}, True)
+                            ctx.count("kind:long-lived")
+                            a = rec["auth"]
+                            if name.startswith("long:replay"):
+                                ctx.count("long-lived-replay:" + ("accepted" if a and a[0] == "ok" and a[1] else
+                                                                  ("refused:" + str(a[1]) if a else "?")))
+                            if unmod:
+                                ctx.unmodelled += 1
+                                flush()
+                                seg["cfg"] = None
+                            else:
+                                seg["steps"].append(term)
+                                seg["recs"].append({"i": len(seg["recs"]), "name": name, "request": rq, "now": now, "auth": rec["auth"],
+                                                    "outcome": rec["outcome"],
+                                                    "handed_on": {x: v for x, v in rec["seen"].items() if x != "auth"}})
+                        flush()
+    # leave the second endpoint as the other histories expect it
+    world.eps[ep_b].client_authn_method = list(world.default_methods[ep_b])
 
 
 def side_cases(ctx, world):
